@@ -535,3 +535,237 @@ Proof.
   - right. destruct (step_fail s order A) as (l & lg & [E|E]); rewrite E in H; inversion H; subst;
       (split; [reflexivity|]); split; eauto.
 Qed.
+
+(* ---- how one rt can change during Sim::step / Sim::run ------------------- *)
+
+Record rt_evolves (d : N) (r r' : rt) : Prop := {
+  ev_client : is_client r' = is_client r;
+  ev_sw : sw r' = sw r;
+  ev_starts : starts r' = starts r;
+  ev_offset : t_offset r' = t_offset r;
+  ev_base : inc_base r' = inc_base r;
+  ev_polls : (polls r <= polls r')%nat;
+  ev_elapsed : t_elapsed r <= t_elapsed r';
+  ev_stopped : running r = false -> running r' = false /\ polls r' = polls r;
+  ev_norestart : running r' = true -> running r = true
+}.
+
+Lemma rt_evolves_refl d r : rt_evolves d r r.
+Proof. constructor; auto; lia. Qed.
+
+Lemma rt_evolves_trans d r1 r2 r3 : rt_evolves d r1 r2 -> rt_evolves d r2 r3 -> rt_evolves d r1 r3.
+Proof.
+  intros [A1 A2 A3 A4 A5 A6 A7 A8 A9] [B1 B2 B3 B4 B5 B6 B7 B8 B9]. constructor; try congruence; try lia.
+  - intro H. destruct (A8 H) as [H1 H2]. destruct (B8 H1) as [H3 H4]. split; congruence.
+  - auto.
+Qed.
+
+Lemma rt_evolves_timer d r : rt_evolves d r (timer_tick d r).
+Proof. constructor; cbn; auto; lia. Qed.
+
+Lemma rt_evolves_polled d r b : running r = true -> rt_evolves d r (polled r b).
+Proof. intro H. constructor; cbn; auto; try lia. intro; congruence. Qed.
+
+Lemma rt_tick_fst_running r : running r = true ->
+  exists b, fst (rt_tick r) = polled r b.
+Proof. intro H. unfold rt_tick. rewrite H. destruct (cur_outcome r); cbn; eauto. Qed.
+
+Lemma rt_evolves_adv d r : rt_evolves d r (adv d r).
+Proof.
+  unfold adv. destruct (running r) eqn:E; [|apply rt_evolves_timer].
+  destruct (rt_tick_fst_running r E) as [b ->].
+  eapply rt_evolves_trans; [apply rt_evolves_polled; exact E|apply rt_evolves_timer].
+Qed.
+
+Theorem step_evolves s order s' res log :
+  step s order = (s', res, log) ->
+  length (rts s') = length (rts s) /\
+  forall j r, nth_error (rts s) j = Some r ->
+    exists r', nth_error (rts s') j = Some r' /\ rt_evolves (tick s) r r'.
+Proof.
+  unfold step. intro H.
+  destruct (poll_loop s (rts s) (eff_order (rts s) order) true []) as [[l lres] lg] eqn:E.
+  pose proof (poll_loop_length _ _ _ _ _ _ _ _ E) as Hlen.
+  assert (R : forall j r, nth_error (rts s) j = Some r ->
+            exists r1, nth_error l j = Some r1 /\ rt_evolves (tick s) r r1 /\
+                       (running r = false -> r1 = r)).
+  { intros j r Ej.
+    destruct (poll_loop_rel _ _ _ _ _ _ _ _ (eff_order_NoDup _ _) (eff_all_running _ _) E j r Ej)
+      as (r1 & A & B). exists r1. split; [exact A|].
+    destruct B as [->|(Hr & _ & [->| [_ ->]])].
+    - split; [apply rt_evolves_refl|auto].
+    - split; [apply rt_evolves_adv|congruence].
+    - destruct (rt_tick_fst_running r Hr) as [b ->].
+      split; [now apply rt_evolves_polled|congruence]. }
+  destruct lres as [fin| |].
+  - assert (Hs' : rts s' = tick_stopped (tick s) (map running (rts s)) l).
+    { cbn in H. destruct (_ && _) in H; inversion H; subst; reflexivity. }
+    rewrite Hs'. split.
+    + apply (f_equal (@length rt)) in Hs'.
+      assert (forall was l0, length was = length l0 ->
+                length (tick_stopped (tick s) was l0) = length l0) as Hl.
+      { induction was as [|w ws IH]; intros [|x l0] HH; cbn in *; try discriminate; auto. }
+      rewrite Hl; [exact Hlen|]. now rewrite map_length.
+    + intros j r Ej. destruct (R j r Ej) as (r1 & A & B & C).
+      rewrite tick_stopped_nth by (now rewrite map_length).
+      rewrite nth_error_map_some, Ej, A. cbn.
+      destruct (running r) eqn:Er.
+      * eauto.
+      * rewrite (C eq_refl). eexists; split; [reflexivity|]. apply rt_evolves_timer.
+  - inversion H; subst; cbn. split; [exact Hlen|].
+    intros j r Ej. destruct (R j r Ej) as (r1 & A & B & _). eauto.
+  - inversion H; subst; cbn. split; [exact Hlen|].
+    intros j r Ej. destruct (R j r Ej) as (r1 & A & B & _). eauto.
+Qed.
+
+Lemma step_params s order s' res log :
+  step s order = (s', res, log) ->
+  tick s' = tick s /\ wtick s' = wtick s /\ duration s' = duration s /\ epoch s' = epoch s /\
+  elapsed s <= elapsed s'.
+Proof.
+  unfold step. destruct (poll_loop _ _ _ _ _) as [[l [fin| |]] lg]; intro H.
+  - destruct (_ && _); inversion H; subst; cbn; repeat split; auto; lia.
+  - inversion H; subst; cbn; repeat split; auto; lia.
+  - inversion H; subst; cbn; repeat split; auto; lia.
+Qed.
+
+Theorem run_loop_evolves : forall fuel orc i s log s' res n log',
+  run_loop fuel orc i s log = (s', res, n, log') ->
+  tick s' = tick s /\ wtick s' = wtick s /\ duration s' = duration s /\ epoch s' = epoch s /\
+  elapsed s <= elapsed s' /\
+  length (rts s') = length (rts s) /\
+  forall j r, nth_error (rts s) j = Some r ->
+    exists r', nth_error (rts s') j = Some r' /\ rt_evolves (tick s) r r'.
+Proof.
+  induction fuel as [|f IH]; intros orc i s log s' res n log' H; cbn in H.
+  - inversion H; subst. repeat split; auto; try lia. intros j r E. exists r. split; auto.
+    apply rt_evolves_refl.
+  - destruct (step s (orc i)) as [[s1 r1] lg] eqn:E.
+    destruct (step_params _ _ _ _ _ E) as (P1 & P2 & P3 & P4 & P5).
+    destruct (step_evolves _ _ _ _ _ E) as (L & R).
+    assert (Done : s' = s1 ->
+      tick s' = tick s /\ wtick s' = wtick s /\ duration s' = duration s /\ epoch s' = epoch s /\
+      elapsed s <= elapsed s' /\ length (rts s') = length (rts s) /\
+      forall j r, nth_error (rts s) j = Some r ->
+        exists r', nth_error (rts s') j = Some r' /\ rt_evolves (tick s) r r').
+    { intros ->. repeat split; auto. }
+    destruct r1 as [[|]| | |]; try (apply Done; inversion H; reflexivity).
+    destruct (IH _ _ _ _ _ _ _ _ H) as (Q1 & Q2 & Q3 & Q4 & Q5 & Q6 & Q7).
+    repeat split; try congruence; try lia.
+    intros j r Ej. destruct (R j r Ej) as (r2 & A & B).
+    destruct (Q7 j r2 A) as (r3 & C & D). exists r3. split; auto.
+    rewrite P1 in D. eapply rt_evolves_trans; eauto.
+Qed.
+
+Theorem run_evolves s orc s' res n log :
+  run s orc = (s', res, n, log) ->
+  tick s' = tick s /\ wtick s' = wtick s /\ duration s' = duration s /\ epoch s' = epoch s /\
+  elapsed s <= elapsed s' /\
+  length (rts s') = length (rts s) /\
+  forall j r, nth_error (rts s) j = Some r ->
+    exists r', nth_error (rts s') j = Some r' /\ rt_evolves (tick s) r r'.
+Proof.
+  unfold run. destruct (existsb is_client (rts s)).
+  - apply run_loop_evolves.
+  - intro H. inversion H; subst. repeat split; auto; try lia.
+    intros j r E. exists r. split; auto. apply rt_evolves_refl.
+Qed.
+
+(* ---- logs ---------------------------------------------------------------- *)
+
+Lemma mk_reads_host s i r o : In o (mk_reads s i r) -> o_host o = i /\ o_inc o = pred (starts r).
+Proof. unfold mk_reads. intro H. apply in_map_iff in H as (x & <- & _). auto. Qed.
+
+Theorem step_log_sound s order s' res log o :
+  step s order = (s', res, log) -> In o log ->
+  exists r, nth_error (rts s) (o_host o) = Some r /\ running r = true /\
+            In o (mk_reads s (o_host o) r).
+Proof.
+  unfold step. intros H Ho.
+  destruct (poll_loop s (rts s) (eff_order (rts s) order) true []) as [[l lres] lg] eqn:E.
+  assert (lg = log) as ->.
+  { destruct lres; [cbn in H; destruct (_ && _) in H|..]; inversion H; reflexivity. }
+  destruct (poll_loop_log _ _ _ _ _ _ _ _ (eff_order_NoDup _ _) (eff_all_running _ _) E o Ho)
+    as [[]|(i & r & _ & A & B & C)].
+  destruct (mk_reads_host _ _ _ _ C) as [Eh _]. rewrite Eh. eauto.
+Qed.
+
+Lemma run_loop_log_host : forall fuel orc i s log s' res n log' j,
+  run_loop fuel orc i s log = (s', res, n, log') ->
+  is_running_at (rts s) j = false ->
+  (forall o, In o log -> o_host o <> j) ->
+  forall o, In o log' -> o_host o <> j.
+Proof.
+  induction fuel as [|f IH]; intros orc i s log s' res n log' j H Hj Hl; cbn in H.
+  - inversion H; subst. exact Hl.
+  - destruct (step s (orc i)) as [[s1 r1] lg] eqn:E.
+    assert (Hl1 : forall o, In o (log ++ lg) -> o_host o <> j).
+    { intros o Ho. apply in_app_or in Ho as [Ho|Ho]; [auto|].
+      destruct (step_log_sound _ _ _ _ _ _ E Ho) as (r & A & B & _). intros <-.
+      unfold is_running_at in Hj. rewrite A in Hj. congruence. }
+    assert (Hj1 : is_running_at (rts s1) j = false).
+    { destruct (step_evolves _ _ _ _ _ E) as (L & R). unfold is_running_at in *.
+      destruct (nth_error (rts s) j) as [r|] eqn:Ej.
+      - destruct (R j r Ej) as (r' & A & B). rewrite A. now apply (ev_stopped _ _ _ B).
+      - apply nth_error_None in Ej. rewrite <- L in Ej. apply nth_error_None in Ej. now rewrite Ej. }
+    destruct r1 as [[|]| | |]; try (inversion H; subst; exact Hl1).
+    eapply IH; eauto.
+Qed.
+
+(* ---- Sim::crash / Sim::bounce over a host list ------------------------------ *)
+
+Lemma for_hosts_rel f : forall hs l l' ok,
+  for_hosts f l hs = (l', ok) ->
+  length l' = length l /\
+  forall j r, nth_error l j = Some r ->
+    exists k, nth_error l' j = Some (Nat.iter k f r) /\ (~ In j hs -> k = 0%nat).
+Proof.
+  induction hs as [|h rest IH]; intros l l' ok H; cbn in H.
+  - inversion H; subst. split; auto. intros j r E. exists 0%nat. auto.
+  - destruct (nth_error l h) as [rh|] eqn:Eh.
+    + destruct (is_client rh).
+      * inversion H; subst. split; auto. intros j r E. exists 0%nat. auto.
+      * destruct (IH _ _ _ H) as (L & R). split; [now rewrite L, upd_nth_length|].
+        intros j r E. destruct (Nat.eq_dec h j) as [->|Hn].
+        -- destruct (R j (f r)) as (k & A & B); [now rewrite nth_error_upd_nth_eq, E|].
+           exists (S k). split.
+           ++ rewrite A. f_equal. clear. induction k as [|k IHk]; [reflexivity|].
+              change (f (Nat.iter k f (f r)) = f (Nat.iter (S k) f r)). now rewrite IHk.
+           ++ intro Hn. exfalso. apply Hn. now left.
+        -- destruct (R j r) as (k & A & B); [now rewrite nth_error_upd_nth_neq|].
+           exists k. split; auto. intro Hj. apply B. intro. apply Hj. now right.
+    + inversion H; subst. split; auto. intros j r E. exists 0%nat. auto.
+Qed.
+
+(* a successful call over distinct hosts applies f exactly once to each of them *)
+Lemma for_hosts_once f : forall hs l l',
+  NoDup hs -> for_hosts f l hs = (l', true) ->
+  (forall j r, nth_error l j = Some r ->
+     nth_error l' j = Some (if mem_nat j hs then f r else r)) /\
+  (forall h, In h hs -> exists r, nth_error l h = Some r /\ is_client r = false).
+Proof.
+  induction hs as [|h rest IH]; intros l l' Hn H; cbn in H.
+  - inversion H; subst. split; [auto|intros h []].
+  - inversion Hn as [|? ? Hh Hn']; subst.
+    destruct (nth_error l h) as [rh|] eqn:Eh; [|discriminate].
+    destruct (is_client rh) eqn:Ec; [discriminate|].
+    destruct (IH _ _ Hn' H) as (R & C). split.
+    + intros j r E. cbn [mem_nat]. destruct (Nat.eq_dec h j) as [->|Hne].
+      * rewrite Nat.eqb_refl. cbn.
+        rewrite (R j (f r)) by (now rewrite nth_error_upd_nth_eq, E).
+        apply mem_nat_false in Hh. now rewrite Hh.
+      * assert (Nat.eqb j h = false) as -> by (apply Nat.eqb_neq; congruence). cbn.
+        apply R. now rewrite nth_error_upd_nth_neq.
+    + intros x [<-|Hx]; [eauto|].
+      destruct (C x Hx) as (r & A & B).
+      rewrite nth_error_upd_nth_neq in A by (intro; subst; contradiction). eauto.
+Qed.
+
+Definition obs_log (o : obs) : list read_obs :=
+  match o with OStep _ _ _ lg => lg | ORun _ _ _ _ lg => lg | _ => [] end.
+
+Lemma nth_error_app_some {A} (l l2 : list A) j x :
+  nth_error l j = Some x -> nth_error (l ++ l2) j = Some x.
+Proof.
+  intro H. rewrite nth_error_app1; auto. apply nth_error_Some. congruence.
+Qed.
